@@ -75,6 +75,20 @@ def build_dataset(kind, pos_unit):
         ds2["hydro"] = ds["hydro"]
         ds2["part"] = ds["part"]
         return ds2, {"mesh": (pts2, n), "hydro": (pts2, n), "part": (ppts, len(ppts))}
+    if kind in ("copied", "copy.copy"):
+        # a shallow copy of the dataset whose mesh is then replaced by another one (other positions): the copy's position-less
+        # group follows the mesh of the dataset that is extracted from - the copy
+        import copy as _copy
+
+        ds2 = ds.copy() if kind == "copied" else _copy.copy(ds)
+        pts2 = pts[::-1].copy()
+        mesh2 = DG()
+        mesh2["position"] = V_(pts2[:, 0].copy(), pts2[:, 1].copy(), pts2[:, 2].copy(), unit=pos_unit)
+        mesh2["tag"] = A_(np.arange(n, dtype=np.float64) + 50000, unit="g")
+        ds2["mesh"] = mesh2
+        for g in ("tracers", "dust"):
+            del ds2[g]
+        return ds2, {"mesh": (pts2, n), "hydro": (pts2, n), "part": (ppts, len(ppts))}
     if kind in ("full", "small"):
         other = DG()
         other["q"] = A_(np.arange(4, dtype=np.float64), unit="s")
@@ -252,6 +266,9 @@ def cases(thorough):
         for r in (0.5, 1.0):
             yield {"fn": "sphere", "pos_unit": "m", "arg_unit": "cm", "form": "Array", "origin": list(o), "size": r, "ds": "regrouped"}
             yield {"fn": "box", "pos_unit": "m", "arg_unit": "m", "form": "Quantity", "origin": list(o), "size": [r, 2.0, r], "ds": "regrouped"}
+            for dk in ("copied", "copy.copy"):
+                yield {"fn": "sphere", "pos_unit": "m", "arg_unit": "m", "form": "Array", "origin": list(o), "size": r, "ds": dk}
+                yield {"fn": "box", "pos_unit": "m", "arg_unit": "cm", "form": "Array", "origin": list(o), "size": [r, 2.0, r], "ds": dk}
     for ndim in (3,):
         for fn in ("sphere", "box"):
             for r in (0.0, 0.5, 4.0):
